@@ -280,6 +280,10 @@ def _ed_real(acc, seed):
     if R.enc(P)[-1] == 0:
         base_strings.append(R.enc(P))
         acc.note("Ed25519: %d*B encodes with a trailing zero byte (used for the truncation class)" % k)
+    import binascii, base64
+    for b in base_strings:
+        for t in (binascii.hexlify(b), binascii.hexlify(b).upper(), base64.b64encode(b), b"0x" + binascii.hexlify(b), base64.b16encode(b)[:32]):
+            put(t, "text-encoding")
     for b in base_strings:
         put(b, "valid")
         for n in range(0, 32):
@@ -289,6 +293,8 @@ def _ed_real(acc, seed):
             put(b + b"\xff" * (n - 32), "extended-ff")
         put(b + b, "doubled")
         put(b + R.enc(R.B), "extended-element")
+    for key, k in sorted(C.element_pattern_multiples(R, 1).items(), key=lambda kv: str(kv[0])):
+        put(R.enc(R.mul(R.base(), k)), "valid-pattern")
     items = sorted(cand.items())
     core.pmerge(_ed_real_chunk, core.chunks([b for b, _ in items], 32), acc)
     acc.inst("ParamsEd25519", strings=len(items))
@@ -331,9 +337,14 @@ def _int_real_task(name):
     if not e >> (8 * (es - 1)):
         elems.append(e)
         acc.note("%s: g^%d has a leading zero byte (used for the truncation class)" % (name, k))
+    import binascii, base64
     for e in elems:
         b = R.enc(e)
         cand |= {b, b + b"\x00", b"\x00" + b, b[1:], b[:-1], b + b, b"", b[:1]}
+        cand |= {binascii.hexlify(b), binascii.hexlify(b).upper(), base64.b64encode(b), binascii.hexlify(b)[:es]}
+    # valid elements whose encoding carries a distinguished byte at the boundary positions / shares leading bytes with p
+    for key, k in sorted(C.element_pattern_multiples(R, 0).items(), key=lambda kv: str(kv[0])):
+        cand.add(R.enc(R.mul(R.base(), k)))
     n = 0
     for b in sorted(cand):
         cls = classify(R, b)
